@@ -62,6 +62,22 @@ CLAIMS = {
              "(to be proved under C03), xl_cell_to_rowcol functional correctness under C10, values_only=False. Three genuine defects "
              "repaired by fix: commits ea88c8a, fd71a76. Trusted: " + TB,
         technique="contract-based deductive verification (quantified VCs over a 2-D (nr, rl, at) grid encoding, generator-as-list, z3/cvc5); counter-models replayed on real tables"),
+    "C18": dict(
+        category="proof", design="DESIGN.md section 7 C18",
+        text="Contract-based deductive proof on the real Tokenizer (tokenizer.py): every consumer (parse_string, parse_error, "
+             "parse_operator, parse_opener, parse_closer, parse_separator), check_scientific_notation and save_token satisfy "
+             "'consumes n >= 1 characters and items-text grows by exactly the pending token plus formula[offset:offset+n]'; "
+             "parse() keeps the invariant itxt+tok == formula[:offset] (loop invariant, decreasing measure => termination) so that "
+             "for EVERY string the token texts concatenate to the input, quoted text never enters a plain token, every quoted "
+             "item is one whole match, and the only exception that can escape is TokenizerError (every index, pop, dict lookup "
+             "and float() is an obligation). The source's string regexes are proved language-equivalent to the documented "
+             "quoting grammar. Clause 3 (every formula the reader emits is accepted) is decided only by the bounded stand-in "
+             "over the fixture formulas, labelled bounded.",
+        note="Assumes: ghost views of the three lists (join/count, concatenated values/last item, depth + element invariant checked "
+             "at push) with every other list operation UNSUPPORTED; regex match = any decomposition + tail maximality + look-ahead; "
+             "float(str) raises ValueError or returns; z3/cvc5 string theory (code points <= U+2FFFF). One genuine defect repaired "
+             "(unbalanced ')' raised IndexError). Trusted: " + TB,
+        technique="contract-based deductive verification (string VCs per path, z3 + cvc5) + bounded run-time-contract stand-in for clause 3"),
 }
 NA_REASON = "check not built yet (build in progress; see DESIGN.md section 7 for the plan)"
 
